@@ -458,9 +458,11 @@ def coupled_cases(res, rng, tier):
 
 # ----------------------------------------------------------------------------- rate models: real sigma(t) coefficient and Libor drift (oracle only)
 def rate_model_oracle(res, rng, tier):
-    """LevyLiborModel / LevyForwardModel with a product maturing at the first tenor: the single and the coupled scheme must be the
-    LEFT-point Euler recursion of the consumed driver path; a(t, x) and sde_drift(t, x) are taken from the implementation as black boxes
-    (tolerance 1e-12; no Coq model of the quadrature-based drift)"""
+    """LevyLiborModel (horizon BEYOND the first and second fixing dates) / LevyForwardModel (horizon at the first tenor): several
+    paths in a row on the SAME model object, single scheme and coupled scheme at levels 1-2; every path must be the LEFT-point Euler
+    recursion of the consumed driver path with the coefficient a(t, x) evaluated by a FRESH, independently constructed coefficient
+    object (so a coefficient object that is mutated by a simulation shows), and the model's sigma array must be unchanged after every
+    path; sde_drift(t, x) is taken from the implementation (tolerance 1e-12; no Coq model of the quadrature-based drift)"""
     import numpy as np
     from rpylib.model.levydrivensde.levylibormodel import LevyLiborModel
     from rpylib.model.levydrivensde.levyforwardmodel import LevyForwardModel
@@ -475,7 +477,7 @@ def rate_model_oracle(res, rng, tier):
         x = np.array([x0], dtype=float).T
         out = [x.copy()]
         for i in range(len(times) - 1):
-            t, dt = times[i], times[i + 1] - times[i]
+            t, dt = np.float64(times[i]), times[i + 1] - times[i]      # the schemes pass numpy floats (list-valued tenors compare with those only)
             A = a(t, x)
             x = x + (sde_drift(t, x) + A @ np.atleast_2d(mu)) * dt + A @ np.array([[(jrow[i + 1] - jrow[i]) + (drow[i + 1] - drow[i])]])
             out.append(x.copy())
@@ -487,11 +489,13 @@ def rate_model_oracle(res, rng, tier):
             rates = [dy(rng, 0.01, 0.05, 256) for _ in range(m)]
             tenors = [1.0 + 0.5 * k for k in range(m + 1)]
             sigma = np.array([[dy(rng, 0.125, 0.5, 8)] for _ in range(m)])
+            sigma0 = sigma.copy()                              # pristine copy kept by the harness
+            horizon = (tenors[min(2, m)] + 0.25) if cls is LevyLiborModel else tenors[0]
             driver, mkgrid = step_driver(rng, 1)
             ctx0 = {"kind": "rate-model", "cls": cls.__name__, "rates": rates, "tenors": tenors, "sigma": sigma.flatten().tolist()}
             try:
                 model = cls(np.array(rates), list(tenors), sigma, driver)
-                prod = Product(Libors(), Forward(1.0), maturity=tenors[0])
+                prod = Product(Libors(), Forward(1.0), maturity=horizon)
                 cp = CouplingSDE(model, mkgrid(), sampling_method(1))
                 cp.initialisation(prod)
                 pms = [MLMCPath(cp.fine_process.deterministic_path, False)]
@@ -500,12 +504,21 @@ def rate_model_oracle(res, rng, tier):
                 res.broke("rate-model oracle", f"{cls.__name__} with a product maturing at the first tenor could not be built/initialised: "
                                                f"{type(e).__name__}: {e} ({ctx0})")
                 continue
+            if cls is LevyForwardModel:
+                # the forward-market coefficient from the first tenor on (the simulations above stop there): sigma(t) must be computable
+                res.count(("forward-sigma", tuple(tenors)), kind="ForwardMarketSDEFunction.sigma beyond the first tenor")
+                try:
+                    model.a(np.float64(tenors[0]), np.array([rates], dtype=float).T)
+                except Exception as e:  # noqa
+                    res.violation("ForwardMarketSDEFunction.sigma(t) raises for t >= first tenor (LevyForwardModel hands it the tenors as a list)",
+                                  dict(ctx0, kind="forward-sigma", finding="F-C16-4", t=tenors[0], error=f"{type(e).__name__}: {e}"))
             for level in (0, 1, 2):
                 if level:
                     cp.next_level(mc_paths=1, path_managers=pms, product=prod)
                 for ic in range(4):
-                    times, (jf, jc), (df_, dc) = gen_path(rng, 1, True, rng.randrange(2, 7))
-                    ctx = dict(ctx0, level=level, times=times, jump_fine=jf, jump_coarse=jc, diff_fine=df_, diff_coarse=dc)
+                    times, (jf, jc), (df_, dc) = gen_path(rng, 1, True, rng.randrange(3, 8))
+                    times = [t * horizon for t in times]
+                    ctx = dict(ctx0, level=level, path_number_on_this_model=4 * level + ic + 1, horizon=horizon, times=times, jump_fine=jf, jump_coarse=jc, diff_fine=df_, diff_coarse=dc)
                     res.count(("rate", cls.__name__, level, tuple(times), repr(jf), repr(jc)), nontrivial=True, kind=f"{cls.__name__} sigma(t) level={level}")
                     try:
                         if level == 0:
@@ -521,8 +534,14 @@ def rate_model_oracle(res, rng, tier):
                     except Exception as e:  # noqa
                         res.violation(f"{cls.__name__}: the SDE scheme raises {type(e).__name__}", dict(ctx, error=str(e)))
                         break
+                    fresh_a = type(model.a)(sigma=sigma0.copy(), tenors=list(tenors))     # independently constructed coefficient
+                    if not (np.array_equal(np.asarray(model.a._sigma), sigma0) and np.array_equal(sigma, sigma0)):
+                        res.violation("rate model: simulating a path changed the model's volatility matrix sigma (coefficient object / caller's array mutated)",
+                                      dict(ctx, sigma_before=sigma0.tolist(), model_sigma_after=np.asarray(model.a._sigma).tolist(), callers_sigma_after=sigma.tolist()))
+                        model.a._sigma[...] = sigma0
+                        sigma[...] = sigma0
                     for comp, (g, mu, (jr, dr)) in enumerate(zip(got, mus, rows)):
-                        want = left_euler(model.a, cp.fine_process.sde_drift, mu, rates, times, jr, dr)
+                        want = left_euler(fresh_a, cp.fine_process.sde_drift, mu, rates, times, jr, dr)
                         err = float(np.max(np.abs(g - want)))
                         if err > 1e-12:
                             res.violation("rate model: the scheme is not the Euler recursion with a(t_i, X_i) and the drift taken at the LEFT point of each step",
@@ -647,6 +666,13 @@ def correspond(res):
                 res.broke(f"correspondence {g}", f"model and implementation differ on {len(bad)} of {len(cs)} case(s), first: {cs[bad[0]][:2500]}")
             else:
                 res.case_ok += 1
+
+
+def matches_known(v, known):
+    r = v["replay"]
+    if known["id"] == "F-C16-4":
+        return r.get("kind") == "forward-sigma" and r.get("cls") == "LevyForwardModel" and r.get("error", "").startswith("TypeError: unsupported operand type(s) for -: 'list' and 'list'")
+    return False
 
 
 def replay(path):
